@@ -20,6 +20,11 @@ RULE = ('every initialiser x shapes of rank 1-5 (rank >= 2 for the fan-based one
         'retain_grads, both nested either way, nested twice, after a block was left normally or by an exception (also inside an '
         'enclosing block) - for the fillers and for the layer constructors; explicit reset_parameters() on a layer whose weight / bias / '
         'both were frozen before (freeze() or the flag), in any context: one draw per parameter with the documented bounds, flags kept. '
+        'CONTENT of the tensor handed in: every initialiser x {7s, zeros, -0.0, ones, NaN, +-inf, subnormal, max float, a previous draw, one non-zero, zeros with a NaN, '
+        'np.empty, fresh zeros} and after 1-3 earlier initialiser calls on the same tensor (zeros_ / constant_(0) / draws); zero-element shapes for the plain fillers. '
+        'SPELLING of every numeric argument: Python float / int / bool, np.float64/32/16, np.int8/32/64, np.uint8, np.bool_, the object calculate_gain returns for '
+        'every nonlinearity (passed as it is): accepted / rejected (a leaky_relu slope must be an int that is not a bool, or a float) and the request compared with '
+        'the model (tolerance: the width of a narrow NumPy float argument). '
         'Non-trivial: fan_in != fan_out and gain != 1.')
 EXHAUSTIVE = {'quick': False, 'thorough': False}
 ASSUMPTIONS = ['np.random.uniform / normal produce the distributions their arguments name (not modelled)']
@@ -33,6 +38,16 @@ CTXS = ['plain', 'no_grad', 'retain_grads', 'no_grad>retain_grads', 'retain_grad
         'after-raise:no_grad', 'no_grad>after-raise:no_grad', 'no_grad>after-exit:retain_grads', 'retain_grads>after-raise:no_grad>no_grad',
         'after-raise:no_grad>retain_grads']
 FREEZES = ['none', 'all', 'weight', 'bias', 'flags']        # what is frozen before an explicit reset_parameters()
+# what the tensor handed in HOLDS when the initialiser is called (the fill must not depend on it)
+CONTENTS = ['seven', 'zeros', 'negzeros', 'ones', 'nan', 'inf', '-inf', 'tiny', 'huge', 'prev-draw', 'one-nonzero', 'zeros+nan', 'np.empty', 'np.zeros-large']
+# how a numeric argument is spelled (its type): Python float / int / bool, NumPy scalars of several widths, 0-d-free; `gain:<nl>` = the
+# object calculate_gain(<nl>) returns, passed on as it is (the documented idiom xavier_*(w, gain=calculate_gain(...)))
+SPELLS = ['float', 'int', 'bool', 'np.float64', 'np.float32', 'np.float16', 'np.int8', 'np.int32', 'np.int64', 'np.uint8', 'np.bool_']
+SPELL_T = {'float': float, 'int': int, 'bool': bool, 'np.float64': np.float64, 'np.float32': np.float32, 'np.float16': np.float16, 'np.int8': np.int8,
+           'np.int32': np.int32, 'np.int64': np.int64, 'np.uint8': np.uint8, 'np.bool_': np.bool_}
+SPELL_EPS = {'np.float32': 2.0 ** -22, 'np.float16': 2.0 ** -9}      # arithmetic on a narrow NumPy float stays in that width (weak Python scalars)
+INT_POOL = {('uniform_', 0): [-2, -1, 0], ('uniform_', 1): [0, 1, 2], ('normal_', 0): [-1, 0, 1], ('normal_', 1): [0, 1, 2], ('constant_', 0): [-2, -1, 0, 1, 2],
+            ('xavier_uniform_', 0): [0, 1, 2, 3], ('xavier_normal_', 0): [0, 1, 2, 3], ('kaiming_uniform_', 0): [0, 1, 2], ('kaiming_normal_', 0): [0, 1, 2]}
 FILLERS = ['uniform_', 'normal_', 'constant_', 'ones_', 'zeros_', 'xavier_uniform_', 'xavier_normal_', 'kaiming_uniform_', 'kaiming_normal_']
 
 
@@ -43,6 +58,33 @@ def filler_args(rng, fn):
     if fn in ('ones_', 'zeros_'): return []
     if fn in ('xavier_uniform_', 'xavier_normal_'): return [rng.pick([1.0, 2.0, 0.5, math.sqrt(2.0), 5.0 / 3])]
     return [rng.pick([0, 0.01, 0.2, 1.0, 0.5]), rng.pick(['fan_in', 'fan_out']), rng.pick(NLS)]
+
+
+def slope_is_number(spell):
+    """calculate_gain('leaky_relu', param), as in PyTorch: an int that is not a bool, or a float (np.float64 is one); anything else is rejected"""
+    return spell in ('float', 'int', 'np.float64') or spell is None
+
+
+def spelled_args(rng, fn, args, spells=None):
+    """args of a filler with every NUMERIC argument given a spelling; the value is one the type holds exactly (integers for integer types,
+    0/1 for booleans, the nearest representable value for narrow floats)"""
+    out, sp = [], []
+    for k, a in enumerate(args):
+        if isinstance(a, str): out.append(a); sp.append(None); continue
+        T = spells[k] if spells else rng.pick(SPELLS)
+        if fn.startswith('xavier') and not spells and rng.chance(.3): T = 'gain:' + rng.pick(NLS)
+        if T.startswith('gain:'):
+            v = _doc({'fn': 'gain', 'nl': T[5:], 'p': None})
+        elif T in ('bool', 'np.bool_'):
+            pool = [x for x in INT_POOL[(fn, k)] if x in (0, 1)]
+            v = float(rng.pick(pool))
+        elif 'int' in T:
+            pool = [x for x in INT_POOL[(fn, k)] if x >= 0 or T != 'np.uint8']
+            v = float(rng.pick(pool))
+        else:
+            v = float(SPELL_T[T](a))
+        out.append(v); sp.append(T)
+    return out, sp
 
 
 def layer_case(rng, fn=None):
@@ -116,12 +158,47 @@ def cases(rng, tier):
         for fr in FREEZES:
             for _ in range(2 if tier == 'quick' else 12):
                 out.append(dict(layer_case(rng, fn), ctx=rng.pick(CTXS), reset={'freeze': fr, 'ctx': rng.pick(CTXS), 'times': rng.pick([1, 1, 2])}))
+    # every initialiser x every CONTENT of the tensor handed in (zeros, NaN, inf, previous draws, ...), on a C-contiguous and on one other layout;
+    # and after earlier initialiser calls on the same tensor (zeros_ / constant_(0) / a previous draw, then the initialiser under test)
+    for fn in FILLERS:
+        for cont in CONTENTS:
+            for _ in range(1 if tier == 'quick' else 8):
+                sh = [rng.randint(1, 4) for _ in range(rng.randint(2, 4))]
+                out.append({'shape': sh, 'dt': rng.pick(['f32', 'f64']), 'rg': rng.chance(.5), 'seed': rng.randrange(2 ** 31), 'fn': fn, 'args': filler_args(rng, fn),
+                            'content': cont, 'layout': rng.pick(['c', 'c', 'F', 'step', 'sub', 'T']), 'lp': rng.randrange(64), 'ctx': rng.pick(CTXS) if rng.chance(.3) else 'plain'})
+        for _ in range(3 if tier == 'quick' else 30):
+            sh = [rng.randint(1, 4) for _ in range(rng.randint(2, 4))]
+            before = []
+            for _ in range(rng.randint(1, 3)):
+                b = rng.pick(['zeros_', 'zeros_', 'constant_', 'ones_', 'uniform_', 'normal_', fn])
+                before.append([b, [0.0] if b == 'constant_' and rng.chance(.7) else filler_args(rng, b)])
+            out.append({'shape': sh, 'dt': rng.pick(['f32', 'f64']), 'rg': rng.chance(.5), 'seed': rng.randrange(2 ** 31), 'fn': fn, 'args': filler_args(rng, fn),
+                        'before': before, 'content': rng.pick(CONTENTS)})
+    # zero-element tensors (a size-0 axis): the plain fillers have nothing to fill and must still keep identity / shape / dtype / flag
+    for fn in FILLERS[:5]:
+        for _ in range(2 if tier == 'quick' else 10):
+            sh = [rng.randint(1, 3) for _ in range(rng.randint(1, 4))]
+            sh[rng.randrange(len(sh))] = 0
+            out.append({'shape': sh, 'dt': rng.pick(['f32', 'f64']), 'rg': rng.chance(.5), 'seed': rng.randrange(2 ** 31), 'fn': fn, 'args': filler_args(rng, fn), 'content': rng.pick(CONTENTS[:4])})
+    # every numeric argument of every initialiser x every SPELLING (type) of the number; gains that are results of calculate_gain
+    for fn in FILLERS:
+        if fn in ('ones_', 'zeros_'): continue
+        base_args = filler_args(rng, fn)
+        nnum = len([a for a in base_args if not isinstance(a, str)])
+        todo = [[T] * nnum for T in SPELLS] + ([['gain:' + nl] for nl in NLS] if fn.startswith('xavier') else []) + [None] * (2 if tier == 'quick' else 40)
+        for spells in todo:
+            args = filler_args(rng, fn)
+            if fn.startswith('kaiming') and rng.chance(.6): args[2] = 'leaky_relu'
+            a, sp = spelled_args(rng, fn, args, spells)
+            sh = [rng.randint(1, 4) for _ in range(rng.randint(2, 3))]
+            out.append({'shape': sh, 'dt': rng.pick(['f32', 'f64']), 'rg': rng.chance(.5), 'seed': rng.randrange(2 ** 31), 'fn': fn, 'args': a, 'aspell': sp,
+                        'content': rng.pick(CONTENTS), 'ctx': rng.pick(CTXS) if rng.chance(.3) else 'plain'})
     for nl in NLS:
         for p in [None, 0, 0.01, 0.2, 1.0]:
             out.append({'fn': 'gain', 'nl': nl, 'p': p})
     for c in out:
         c['lines'] = [line_of(c)]
-        c['desc'] = c['lines'][0] + f" dtype={c.get('dt')} rg={c.get('rg')}" + ''.join(f' {k}={c[k]}' for k in ('layout', 'lp', 'ctx', 'reset') if k in c)
+        c['desc'] = c['lines'][0] + f" dtype={c.get('dt')} rg={c.get('rg')}" + ''.join(f' {k}={c[k]}' for k in ('layout', 'lp', 'ctx', 'reset', 'content', 'before', 'aspell') if k in c)
     return out
 
 
@@ -137,7 +214,10 @@ def line_of(c):
     if fn == 'ones_': return f'init const {fbits(1.0)}'
     if fn == 'zeros_': return f'init const {fbits(0.0)}'
     if fn in ('xavier_uniform_', 'xavier_normal_'): return f'init {fn[:-1]} {sh} {fbits(a[0])}'
-    if fn in ('kaiming_uniform_', 'kaiming_normal_'): return f'init {fn[:-1]} {sh} {fbits(a[0])} {a[1]} {a[2]}'
+    if fn in ('kaiming_uniform_', 'kaiming_normal_'):
+        sp = (c.get('aspell') or [None])[0]
+        slope = fbits(a[0]) if a[2] != 'leaky_relu' or slope_is_number(sp) else f'not-a-number:{sp}'       # calculate_gain rejects it (as PyTorch does)
+        return f'init {fn[:-1]} {sh} {slope} {a[1]} {a[2]}'
     return f'init layer {sh}'
 
 
@@ -184,7 +264,20 @@ def _in_ctx(sg, ctx, f):
 def _make_tensor(sg, c, dt):
     """the tensor handed to the initialiser: shape c['shape'], previous contents 7.0, memory layout c['layout'] (parameter c['lp'])"""
     sh = list(c['shape']); lay = c.get('layout', 'c'); p = c.get('lp', 0); n = len(sh)
-    full = lambda shape, **kw: np.full(shape, 7.0, dtype=dt, **kw)
+    def full(shape, **kw):
+        cont = c.get('content', 'seven')
+        fi = np.finfo(dt)
+        const = {'seven': 7.0, 'zeros': 0.0, 'negzeros': -0.0, 'ones': 1.0, 'nan': np.nan, 'inf': np.inf, '-inf': -np.inf, 'tiny': float(fi.smallest_subnormal), 'huge': float(fi.max)}
+        if cont in const: return np.full(shape, const[cont], dtype=dt, **kw)
+        if cont == 'np.empty':
+            a = np.empty(shape, dtype=dt, **kw); return a
+        if cont == 'np.zeros-large':          # fresh zero pages, as a large np.empty / np.zeros hands out
+            return np.zeros(shape, dtype=dt, **kw)
+        rs = np.random.RandomState(p + 1)      # (a generator of its own: the global one is what the initialiser draws from)
+        if cont == 'prev-draw': return np.asarray(rs.standard_normal(shape), dtype=dt, **kw)
+        a = np.zeros(shape, dtype=dt, **kw)
+        if a.size: a.flat[rs.randint(a.size)] = np.nan if cont == 'zeros+nan' else 0.5
+        return a
     i, j = p % n, (p // n) % n
     if lay in ('op-transpose', 'op-movedim'):
         bs = list(sh)
@@ -271,6 +364,12 @@ def _run(c):
         contiguous = bool(t.data.flags['C_CONTIGUOUS'])
         # numeric arguments also arrive as NumPy float64 scalars (a subclass of float with the same precision), e.g. gain=np.sqrt(2.0)
         args = [np.float64(a) if isinstance(a, float) and c['seed'] % 2 else a for a in c['args']]
+        if 'aspell' in c:
+            args = [a if T is None else nn.init.calculate_gain(T[5:]) if T.startswith('gain:') else SPELL_T[T](a) for a, T in zip(c['args'], c['aspell'])]
+        if c.get('before'):       # earlier initialiser calls on the same tensor; the draw under test starts from the seeded state again
+            for b, ba in c['before']: getattr(nn.init, b)(t, *ba)
+            del cap[:]
+            np.random.seed(c['seed'])
         if 'ctx' in c:
             r = _in_ctx(sg, c['ctx'], lambda: getattr(nn.init, fn)(t, *args))
         elif c['seed'] % 3 == 0:        # the usual idiom: re-initialise inside no_grad (requires_grad must survive)
@@ -279,7 +378,7 @@ def _run(c):
         else:
             r = getattr(nn.init, fn)(t, *args)
         ok = (r is t) and list(t.shape) == c['shape'] and t.dtype == dt and t.requires_grad == c['rg']
-        return {'cap': list(cap), 'tensors': [t.data.copy()], 'ok': ok, 'contiguous': contiguous}
+        return {'cap': list(cap), 'tensors': [t.data.copy()], 'ok': ok, 'contiguous': contiguous, 'argtypes': [type(a).__name__ for a in args]}
     finally:
         np.random.uniform, np.random.normal = orig
 
@@ -294,6 +393,8 @@ def impl(c):
     fn = c['fn']
     if fn in ('constant_', 'ones_', 'zeros_'):
         v = r['tensors'][0].ravel()
+        if v.size == 0:          # nothing to fill, nothing to read back: only identity / shape / dtype / flag are observable
+            return ['not-constant' if r['cap'] else f"const {fbits(float(_doc(c)[1]))}"]
         return [f'const {fbits(float(v[0]))}' if len(set(v.tolist())) <= 1 and not r['cap'] else 'not-constant']
     if not r['cap']:
         return ['no-draw']
@@ -301,7 +402,12 @@ def impl(c):
     return [f'{k} {fbits(p1)} {fbits(p2)}']
 
 
-def _close(m, i):
+def _tol(c):
+    """relative tolerance of the request: 1e-12, or the precision of the narrowest NumPy float an argument was spelled in"""
+    return max([1e-12] + [SPELL_EPS.get(T, 0) for T in (c.get('aspell') or []) if T])
+
+
+def _close(m, i, tol=1e-12):
     if m == i: return True
     mt, it = m.split(' '), i.split(' ')
     if len(mt) != len(it) or mt[0] != it[0] and len(mt) > 1: return False
@@ -311,12 +417,13 @@ def _close(m, i):
             x, y = bitsf(a), bitsf(b)
         except Exception:
             return False
-        if abs(x - y) > 1e-12 * (1 + abs(x) + abs(y)): return False
+        if abs(x - y) > tol * (1 + abs(x) + abs(y)): return False
     return True
 
 
 def compare(c, mo, io):
-    diffs = [(c['lines'][0], m, i) for m, i in zip(mo, io) if not _close(m, i)]
+    tol = _tol(c)
+    diffs = [(c['lines'][0], m, i) for m, i in zip(mo, io) if not _close(m, i, tol)]
     r = c.get('_r')
     if diffs or not isinstance(r, dict) or 'gain' in r:
         return diffs
@@ -331,7 +438,7 @@ def compare(c, mo, io):
             if size != tuple(data.shape):
                 diffs.append((c['lines'][0], f'draw of shape {tuple(data.shape)}', f'size={size}')); break
             ref = (np.random.uniform(p1, p2, data.shape) if kind == 'uniform' else np.random.normal(p1, p2, data.shape)).astype(data.dtype)
-            if not np.allclose(ref, data, rtol=1e-6, atol=1e-9):
+            if not np.allclose(ref, data, rtol=max(1e-6, 8 * tol), atol=max(1e-9, 8 * tol * (abs(p1) + abs(p2)))):
                 diffs.append((c['lines'][0], 'data = generator(model parameters)', 'differs')); break
         if len(r['cap']) != len(r['tensors']):
             diffs.append((c['lines'][0], f'{len(r["tensors"])} draws', f'{len(r["cap"])} draws'))
@@ -353,6 +460,11 @@ def distribution(cases):
         r = c.get('_r') if isinstance(c.get('_r'), dict) else {}
         ks = []
         if 'layout' in c: ks += ['layout:' + c['layout'], 'filler on a tensor whose data is ' + ('C-contiguous' if r.get('contiguous', True) else 'NOT C-contiguous') + '/' + c['dt']]
+        if 'content' in c: ks.append('content of the tensor handed in: ' + c['content'] + (' (zero-element shape)' if 0 in c['shape'] else ''))
+        if 'before' in c: ks.append('initialiser called after earlier initialiser calls on the same tensor: ' + '+'.join(b for b, _ in c['before']))
+        for k_, T in enumerate(c.get('aspell') or []):
+            if T: ks.append(f"numeric argument spelled as {T if not T.startswith('gain:') else 'the result of calculate_gain'}"
+                            + (f" (arrives as {r['argtypes'][k_]})" if r.get('argtypes') else ''))
         if 'ctx' in c: ks.append(('layer built in ctx:' if c['fn'] in ('Linear', 'Conv1d', 'Conv2d') else 'filler in ctx:') + c['ctx'])
         if 'grad_mode' in r: ks.append('layer constructed with grad mode ' + ('on' if r['grad_mode'] else 'OFF'))
         if 'reset' in c: ks += ['explicit reset_parameters(), frozen before: ' + c['reset']['freeze'], 'explicit reset in ctx:' + c['reset']['ctx']]
@@ -384,6 +496,7 @@ def _doc(c):
         return ('normal', 0.0, a[0] * math.sqrt(2.0 / (fi + fo)))
     if fn in ('kaiming_uniform_', 'kaiming_normal_'):
         if a[1] not in ('fan_in', 'fan_out'): return 'rejected'
+        if a[2] == 'leaky_relu' and not slope_is_number((c.get('aspell') or [None])[0]): return 'rejected'
         fan = fi if a[1] == 'fan_in' else fo
         g = _doc({'fn': 'gain', 'nl': a[2], 'p': a[0], 'args': []})
         if fn == 'kaiming_uniform_':
@@ -410,9 +523,10 @@ def oracle(c):
         v = r['tensors'][0]
         return None if np.all(v == np.array(want[1]).astype(v.dtype)) else {'key': dict(key, cls='const'), 'case': cc, 'what': 'constant fill differs'}
     if not r['cap']:
-        return {'key': dict(key, cls='no-draw'), 'case': cc, 'what': 'no draw from the global generator'}
+        return {'key': dict(key, cls='no-draw'), 'case': cc, 'what': 'no draw from the global generator' + (f" (the tensor held: {c['content']}" + (f", after {c['before']}" if c.get('before') else '') + ')' if 'content' in c else '')}
+    tol = _tol(c)
     for k, p1, p2, size in r['cap']:
-        if k != want[0] or abs(p1 - want[1]) > 1e-12 * (1 + abs(want[1])) or abs(p2 - want[2]) > 1e-12 * (1 + abs(want[2])):
+        if k != want[0] or abs(p1 - want[1]) > tol * (1 + abs(want[1])) or abs(p2 - want[2]) > tol * (1 + abs(want[2])):
             return {'key': dict(key, cls='parameters'), 'case': cc, 'what': f'generator called with {k}({p1}, {p2}); documented: {want}'}
     if len(r['cap']) != len(r['tensors']):
         return {'key': dict(key, cls='draw-count'), 'case': cc, 'what': f"{len(r['cap'])} draws from the global generator for {len(r['tensors'])} parameter tensors"
@@ -421,7 +535,7 @@ def oracle(c):
     np.random.seed(r.get('seed', c['seed']))
     for (k, a, b, size), data in zip(r['cap'], r['tensors']):
         ref = (np.random.uniform(want[1], want[2], data.shape) if k == 'uniform' else np.random.normal(want[1], want[2], data.shape)).astype(data.dtype)
-        if tuple(data.shape) != tuple(ref.shape) or not np.allclose(ref, data, rtol=1e-6, atol=1e-9):
+        if tuple(data.shape) != tuple(ref.shape) or not np.allclose(ref, data, rtol=max(1e-6, 8 * tol), atol=max(1e-9, 8 * tol * (abs(want[1]) + abs(want[2])))):
             return {'key': dict(key, cls='data'), 'case': cc, 'what': 'tensor data is not the draw with the documented parameters'
                     + (f" (memory layout {c['layout']}, C-contiguous: {r.get('contiguous')}; first values {data.ravel()[:3].tolist()}, drawn {ref.ravel()[:3].tolist()})" if 'layout' in c else '')}
     return None
